@@ -234,6 +234,7 @@ def correspondence(ctx):
         tris += c05.make_triangles(ctx, n, must=c05.MUST[:7])
         c05.roundtrip_batch(ctx, drv, tris, scratch, tag="codec", compressed=False)
         c05.repr_stream(ctx, drv, scratch, 400 if ctx.thorough else 60)
+        c05.family_stream(ctx, drv, scratch, 60 if ctx.thorough else 8)
     order_independence(ctx, 300 if ctx.thorough else 40)
     rejection(ctx, drv, 40 if ctx.thorough else 6)
 
